@@ -674,6 +674,16 @@ def _validate_on_missing(on_missing: str) -> None:
         raise ValueError(f"Invalid on_missing={on_missing!r}. Expected one of: {', '.join(_VALID_ON_MISSING)}")
 
 
+def _validate_max_concurrency(max_concurrency: int | None) -> None:
+    """Validate max_concurrency eagerly: no limit (None) or at least one slot."""
+    if max_concurrency is not None and max_concurrency < 1:
+        raise ValueError(
+            f"Invalid max_concurrency={max_concurrency!r}.\n\n"
+            f"With no slot nothing can execute: a run would wait forever and a map would drop every item.\n\n"
+            f"How to fix: Pass max_concurrency >= 1, or None for no limit."
+        )
+
+
 _VALID_ERROR_HANDLING = ("raise", "continue")
 
 
